@@ -119,11 +119,6 @@ Proof.
   cbn [env]. apply lookup_set_other. exact H2.
 Qed.
 
-Ltac step R lem :=
-  match goal with
-  | A : ?f ?x = Ok ?a, B : ?g ?y = Ok ?b |- _ => idtac
-  end.
-
 Lemma select_prune c kd e1 e2 raw1 raw2 p s t :
   (kd = KFor \/ kd = KHost \/ kd = KFwd /\ truthy raw1 = true /\ truthy raw2 = true) ->
   has (tph_of c) (name_of kd) = true ->
